@@ -111,6 +111,9 @@ OTHER = {"enum": [("replay::corpus::basic::Tup", "::ext::Tup"), ("replay::corpus
          "reach": [("replay::corpus::reach::Foo<X>", "::ext::F<::alloc::vec::Vec<X>>"), ("replay::corpus::reach::A1", "::ext::A"), ("replay::corpus::reach::Inner", "::ext::I")],
          "cow_generic": [(G + "G<A>", "::ext::B<A>"), (G + "CowG<Z>", "::ext::C<Z>")],
          "mybox": [(G + "MyBox<T>", "::ext::MB<T>"), (G + "MyBox", "::ext::MB0")],
+         # source parameters spelled like the generator's own parameter names, used below a parent that hands its parameters on in swapped order
+         "swapper": [(G + "Pair<_0, _1>", "::ext::NewPair<_0, _1>"), (G + "Pair<_1, _0>", "::ext::NewPair<_0, _1>"), (G + "Pair<Hash, Hashing>", "::ext::NP<Hashing, ::w::W<Hash>>"), (G + "Pair<A, B>", "::ext::OnlySecond<B>")],
+         "skipnest": [(G + "Measured<T>", "::ext::M<T>"), (G + "Reading<X>", "::ext::R<X, X>")],
          "calls": [("replay::corpus::calls::Call", "::ext::Call"), ("replay::corpus::basic::Tup", "::ext::T")],
          "containers": [("Option<T>", "::my::Opt<T>"), ("Result<A, B>", "::my::Res<B, A>"), ("Option", "::my::Opt0")],
          "collections": [("BTreeMap<K, V>", "::my::KeyedVec<K, V>"), ("BTreeSet", "::my::Set"), ("Range<I>", "::my::R<I, I>"), ("BinaryHeap<T>", "::my::Heap<::alloc::vec::Vec<T>>")]}
